@@ -90,6 +90,10 @@ var Presets = map[string]*Config{
 			Fuel:    map[string]string{},
 		}
 	}(),
+	// the standard library's os/env.go (Expand and its helpers): no library calls, default loop budgets
+	"os": func() *Config {
+		return &Config{Lib: map[string]LibFn{}, Globals: map[string]Global{}, Structs: map[string]*Struct{}, Fuel: map[string]string{}}
+	}(),
 	"proxy": func() *Config {
 		return &Config{Lib: bytesLib(), Globals: map[string]Global{}, Structs: map[string]*Struct{}, Fuel: map[string]string{}}
 	}(),
